@@ -3,11 +3,11 @@ from .. import relcheck
 from .common import generic_replay
 
 FAMS = ["Noh", "Noh2", "Sedov", "RiemannIG", "Cog1", "Cog8", "EHEP", "Mader", "EPpiston", "Kenamond1", "Kenamond2",
-        "Kenamond3", "DSDcyl", "Blake", "Rod1D", "Hutchens1", "Guderley"]
+        "Kenamond3", "DSDcyl", "Blake", "Rod1D", "Hutchens1", "Guderley", "RiemannGen"]
 
 
 def run(tier):
-    return relcheck.rel_check("C08", ("UNIT.",), FAMS, ["Unit"], tier)
+    return relcheck.rel_check("C08", ("UNIT.",), FAMS, ["Unit"], tier, sample={"RiemannGen": 48})     # general-EOS solver: seconds per solve
 
 
 def replay(path):
